@@ -41,6 +41,8 @@ def scenario_table(two_way, resp_docs, fault_doc, wrong_doc):
     sc.append(("200-bom-then-envelope", 200, "respbom", 0, 0, ok))
     sc.append(("200-xml-declaration-then-envelope", 200, "respdecl", 0, 1, ok))
     sc.append(("200-blank-lines-around-envelope", 200, "respws", 0, 0, ok))
+    if any(ord(ch) > 127 for ch in resp_docs.get("resp0", "")):
+        sc.append(("200-envelope-in-pieces-cut-inside-characters", 200, "resp0", 5, 0, ok))
     sc.append(("201-envelope", 201, "resp0", 0, 0, ok))
     sc.append(("200-chunked-envelope", 200, "resp1", 4, 1, ok))
     sc.append(("500-chunked-envelope", 500, "resp0", 4, 0, "error"))
